@@ -9,7 +9,8 @@ use wasm_encoder as we;
 use wirm::ir::function::FunctionBuilder;
 use wirm::ir::id::{FunctionID, GlobalID, MemoryID};
 use wirm::ir::module::module_globals::GlobalKind;
-use wirm::ir::types::{DataSegment, DataSegmentKind, DataType, InitExpr, InitInstr, Location, Value as WValue};
+use wirm::ir::module::side_effects::{InjectType, Injection};
+use wirm::ir::types::{DataSegment, DataSegmentKind, DataType, InitExpr, InitInstr, Location, Tag, Value as WValue};
 use wirm::iterator::iterator_trait::IteratingInstrumenter;
 use wirm::iterator::module_iterator::ModuleIterator;
 use wirm::module_builder::AddLocal;
@@ -197,6 +198,11 @@ fn dt(v: &Value) -> DataType {
     match v.as_str().unwrap() { "i32" => DataType::I32, "i64" => DataType::I64, "f32" => DataType::F32, "f64" => DataType::F64, o => panic!("type {o}") }
 }
 
+/// the tag of a history step ("tag": [bytes]); absent = the untagged API variant
+fn tag_of(step: &Value) -> Option<Tag> {
+    if step["tag"].is_null() { None } else { Some(Tag::new(arr(&step["tag"]).iter().map(|x| u(x) as u8).collect())) }
+}
+
 fn memty(min: u64) -> wasmparser::MemoryType {
     wasmparser::MemoryType { memory64: false, shared: false, initial: min, maximum: None, page_size_log2: None }
 }
@@ -206,8 +212,14 @@ pub fn apply_history(module: &mut Module<'static>, hist: &[Value]) -> Vec<u32> {
     for step in hist {
         let op = step["op"].as_str().unwrap();
         let r: u32 = match op {
-            "add_imported_global" => *module.add_imported_global("env".to_string(), step["name"].as_str().unwrap().to_string(), DataType::I32, false, false).0,
-            "add_global" => *module.add_global(init_expr(&step["init"], &results), DataType::I32, step["mut"].as_bool().unwrap_or(false), false),
+            "add_imported_global" => match tag_of(step) {
+                Some(t) => *module.add_imported_global_with_tag("env".to_string(), step["name"].as_str().unwrap().to_string(), DataType::I32, false, false, t).0,
+                None => *module.add_imported_global("env".to_string(), step["name"].as_str().unwrap().to_string(), DataType::I32, false, false).0,
+            },
+            "add_global" => match tag_of(step) {
+                Some(t) => *module.add_global_with_tag(init_expr(&step["init"], &results), DataType::I32, step["mut"].as_bool().unwrap_or(false), false, t),
+                None => *module.add_global(init_expr(&step["init"], &results), DataType::I32, step["mut"].as_bool().unwrap_or(false), false),
+            },
             "it_add_global" => {
                 let sk: Vec<FunctionID> = vec![];
                 let mut it = ModuleIterator::new(module, &sk);
@@ -225,7 +237,10 @@ pub fn apply_history(module: &mut Module<'static>, hist: &[Value]) -> Vec<u32> {
             "mod_global_init" => { module.mod_global_init_expr(GlobalID(resolve(&step["id"], &results)), init_expr(&step["init"], &results)); 0 }
             "add_import_func" => {
                 let ty = module.types.add_func_type(&[], &[DataType::I32], None);
-                *module.add_import_func("env".to_string(), step["name"].as_str().unwrap().to_string(), ty).0
+                match tag_of(step) {
+                    Some(t) => *module.add_import_func_with_tag("env".to_string(), step["name"].as_str().unwrap().to_string(), ty, t).0,
+                    None => *module.add_import_func("env".to_string(), step["name"].as_str().unwrap().to_string(), ty).0,
+                }
             }
             "add_local_func" => {
                 // params / locals / name are optional: the builder API as a user drives it (C12)
@@ -234,7 +249,7 @@ pub fn apply_history(module: &mut Module<'static>, hist: &[Value]) -> Vec<u32> {
                 for l in arr(&step["locals"]) { fb.add_local(dt(&l)); }
                 if let Some(n) = step["name"].as_str() { fb.set_name(n.to_string()); }
                 emit(&mut fb, &step["body"], &results);
-                *fb.finish_module(module)
+                match tag_of(step) { Some(t) => *fb.finish_module_with_tag(module, t), None => *fb.finish_module(module) }
             }
             "replace_import" => {
                 // FunctionBuilder::replace_import_in_module: the import with this ImportsID becomes a local function
@@ -250,19 +265,25 @@ pub fn apply_history(module: &mut Module<'static>, hist: &[Value]) -> Vec<u32> {
             }
             "set_fn_name" => { module.set_fn_name(FunctionID(resolve(&step["id"], &results)), step["name"].as_str().unwrap().to_string()); 0 }
             "delete_func" => { module.delete_func(FunctionID(resolve(&step["id"], &results))); 0 }
-            "add_import_memory" => *module.add_import_memory("env".to_string(), step["name"].as_str().unwrap().to_string(), memty(step["min"].as_u64().unwrap())).0,
-            "add_local_memory" => *module.add_local_memory(memty(step["min"].as_u64().unwrap())),
+            "add_import_memory" => match tag_of(step) {
+                Some(t) => *module.add_import_memory_with_tag("env".to_string(), step["name"].as_str().unwrap().to_string(), memty(step["min"].as_u64().unwrap()), t).0,
+                None => *module.add_import_memory("env".to_string(), step["name"].as_str().unwrap().to_string(), memty(step["min"].as_u64().unwrap())).0,
+            },
+            "add_local_memory" => match tag_of(step) {
+                Some(t) => *module.add_local_memory_with_tag(memty(step["min"].as_u64().unwrap()), t),
+                None => *module.add_local_memory(memty(step["min"].as_u64().unwrap())),
+            },
             "delete_memory" => { module.delete_memory(MemoryID(resolve(&step["id"], &results))); 0 }
             "add_data" => {
                 let bytes: Vec<u8> = arr(&step["bytes"]).iter().map(|x| u(x) as u8).collect();
                 *module.add_data(DataSegment {
                     kind: DataSegmentKind::Active { memory_index: resolve(&step["mem"], &results), offset_expr: init_expr(&step["offset"], &results) },
                     data: bytes,
-                    tag: None,
+                    tag: tag_of(step),
                 })
             }
-            "add_export_func" => { module.exports.add_export_func(step["name"].as_str().unwrap().to_string(), resolve(&step["id"], &results), None); 0 }
-            "add_export_mem" => { module.exports.add_export_mem(step["name"].as_str().unwrap().to_string(), resolve(&step["id"], &results), None); 0 }
+            "add_export_func" => { module.exports.add_export_func(step["name"].as_str().unwrap().to_string(), resolve(&step["id"], &results), tag_of(step)); 0 }
+            "add_export_mem" => { module.exports.add_export_mem(step["name"].as_str().unwrap().to_string(), resolve(&step["id"], &results), tag_of(step)); 0 }
             "delete_export" => {
                 let id = module.exports.get_export_id_by_name(step["name"].as_str().unwrap().to_string()).expect("export to delete");
                 module.exports.delete(id);
@@ -272,8 +293,14 @@ pub fn apply_history(module: &mut Module<'static>, hist: &[Value]) -> Vec<u32> {
                 let fid = FunctionID(resolve(&step["func"], &results));
                 let mut fm = module.functions.get_fn_modifier(fid).expect("function modifier");
                 let loc = Location::Module { func_idx: fid, instr_idx: u(&step["at"]) as usize };
-                if step["mode"].as_str() == Some("after") { fm.after_at(loc); } else { fm.before_at(loc); }
+                match step["mode"].as_str() {
+                    Some("after") => { fm.after_at(loc); }
+                    Some("func_entry") => { fm.func_entry(); }
+                    Some("func_exit") => { fm.func_exit(); }
+                    _ => { fm.before_at(loc); }
+                }
                 emit(&mut fm, &step["ops"], &results);
+                if let Some(t) = tag_of(step) { fm.append_tag_at(t.data().clone(), loc); }
                 0
             }
             o => panic!("history op {o}"),
@@ -403,6 +430,50 @@ pub fn decode_module(bytes: &[u8]) -> Value {
     json!({"types": types, "names": {"funcs": nfuncs, "globals": nglobals, "locals": nlocals}, "imports": imports, "globals": globals, "funcs": funcs, "memories": mems, "tables": tables, "exports": exports, "start": start, "elems": elems, "data": data})
 }
 
+fn init_toks(e: &InitExpr) -> Value {
+    let mut v = vec![];
+    for i in e.instructions() {
+        v.push(match i {
+            InitInstr::Value(WValue::I32(x)) => json!(["i32.const", x]),
+            InitInstr::Global(g) => json!(["global.get", **g]),
+            InitInstr::RefFunc(f) => json!(["ref.func", **f]),
+            _ => json!(["?"]),
+        });
+    }
+    json!(v)
+}
+fn dts(v: &[DataType]) -> Vec<String> { v.iter().map(|t| format!("{}", wasmparser::ValType::from(t)).to_lowercase()).collect() }
+
+/// the side-effect report of `Module::pull_side_effects` as JSON (one list per InjectType)
+pub fn side_effects_json(module: &mut Module<'static>) -> Value {
+    let se = module.pull_side_effects();
+    let mut out = serde_json::Map::new();
+    let mut keys: Vec<&InjectType> = se.keys().collect();
+    keys.sort();
+    for k in keys {
+        let mut recs = vec![];
+        for inj in &se[k] {
+            recs.push(match inj {
+                Injection::Import { module, name, type_ref, tag } => json!({"v": "import", "module": module, "name": name, "kind": match type_ref { wasmparser::TypeRef::Func(_) => "func", wasmparser::TypeRef::Global(_) => "global", wasmparser::TypeRef::Memory(_) => "memory", _ => "other" }, "tag": tag.data()}),
+                Injection::Export { name, kind, index, tag } => json!({"v": "export", "name": name, "kind": format!("{:?}", kind).to_lowercase(), "index": index, "tag": tag.data()}),
+                Injection::Type { tag, .. } => json!({"v": "type", "tag": tag.data()}),
+                Injection::Memory { id, initial, maximum, tag } => json!({"v": "memory", "id": id, "min": initial, "max": maximum, "tag": tag.data()}),
+                Injection::PassiveData { data, tag } => json!({"v": "passive_data", "bytes": data, "tag": tag.data()}),
+                Injection::ActiveData { memory_index, offset_expr, data, tag } => json!({"v": "active_data", "mem": memory_index, "offset": init_toks(offset_expr), "bytes": data, "tag": tag.data()}),
+                Injection::Global { id, ty, shared, mutable, init_expr, tag } => json!({"v": "global", "id": id, "ty": dts(&[*ty]), "shared": shared, "mut": mutable, "init": init_toks(init_expr), "tag": tag.data()}),
+                Injection::Func { id, fname, sig, locals, body, tag } => json!({"v": "func", "id": id, "fname": fname, "params": dts(&sig.0), "results": dts(&sig.1), "locals": dts(locals), "body": body.iter().map(|i| tok(&i.op)).collect::<Vec<_>>(), "tag": tag.data()}),
+                Injection::Local { target_fid, ty, tag } => json!({"v": "local", "fid": target_fid, "ty": dts(&[*ty]), "tag": tag.data()}),
+                Injection::Table { tag } => json!({"v": "table", "tag": tag.data()}),
+                Injection::Element { tag } => json!({"v": "element", "tag": tag.data()}),
+                Injection::FuncProbe { target_fid, mode, body, tag } => json!({"v": "func_probe", "fid": target_fid, "mode": format!("{:?}", mode).to_lowercase(), "body": body.iter().map(tok).collect::<Vec<_>>(), "tag": tag.data()}),
+                Injection::FuncLocProbe { target_fid, target_opcode_idx, mode, body, tag } => json!({"v": "loc_probe", "fid": target_fid, "at": target_opcode_idx, "mode": format!("{:?}", mode).to_lowercase(), "body": body.iter().map(tok).collect::<Vec<_>>(), "tag": tag.data()}),
+            });
+        }
+        out.insert(format!("{}", k), json!(recs));
+    }
+    Value::Object(out)
+}
+
 pub fn run_hist(case: &Value) -> Value {
     let base: &'static [u8] = Box::leak(base_module(&case["base"]).into_boxed_slice());
     if let Err(e) = crate::validate(base) {
@@ -424,5 +495,13 @@ pub fn run_hist(case: &Value) -> Value {
     let mut r = json!({"id": case["id"], "ok": true, "valid": v.is_ok(), "results": results, "out": decode_module(&out), "base": decode_module(base)});
     if let Err(e) = v { r["valid_err"] = json!(e); }
     if let Some(s2) = second { r["second"] = s2; }
+    if case["side_effects"].as_bool().unwrap_or(false) {
+        // the report comes from a SECOND module instance that went through the same history (pull_side_effects runs
+        // its own encoding; calling it on the already encoded instance would be a second encoding, C05's subject)
+        crate::stage(6);
+        let mut m2 = Module::parse(base, true).expect("module parse");
+        apply_history(&mut m2, &arr(&case["hist"]));
+        r["side_effects"] = side_effects_json(&mut m2);
+    }
     r
 }
